@@ -3,6 +3,7 @@ package rules
 import (
 	"fmt"
 	"go/token"
+	"sort"
 	"strings"
 
 	"golang.org/x/tools/go/ssa"
@@ -149,59 +150,22 @@ func cancelIdempotent(c *an.Ctx, r *runnerRoles, rule string) {
 }
 
 func runGate(c *an.Ctx, r *runnerRoles, rule string) {
-	f := r.run
+	// the gate rows of the Run trace: nothing precedes the cancelled test, a cancelled
+	// runner starts nothing and returns a non-nil error
+	checkRunTable(c, rule, map[string]bool{"gate": true})
+	// the function holding the test (Run itself or a helper it calls first)
+	var f *ssa.Function
 	var errCall *ssa.Call
-	an.EachInstr(f, func(in ssa.Instruction) {
-		if call, ok := in.(*ssa.Call); ok && call.Call.IsInvoke() && call.Call.Method.Name() == "Err" && an.FieldProv(call.Call.Value) == "TaskRunner.ctx" {
-			errCall = call
-		}
-	})
+	for _, fn := range r.scope {
+		an.EachInstr(fn, func(in ssa.Instruction) {
+			if call, ok := in.(*ssa.Call); ok && call.Call.IsInvoke() && call.Call.Method.Name() == "Err" && an.FieldProv(call.Call.Value) == "TaskRunner.ctx" {
+				f, errCall = fn, call
+			}
+		})
+	}
 	if errCall == nil {
-		c.Bad(rule, an.Short(f)+":gate", f.Pos(), "Run does not test whether the runner's context is cancelled")
+		c.Bad(rule, an.Short(r.run)+":gate", r.run.Pos(), "Run does not test whether the runner's context is cancelled")
 		return
-	}
-	first := r.callOf[r.ctxFn]
-	c.Check(an.Dominates(errCall, first), rule, an.Short(f)+":gate-first", errCall.Pos(), "the cancelled test precedes context resolution and every phase", "the cancelled test does not precede the first thing that can execute a command")
-	// on the cancelled row: non-nil return, no phase
-	ex := &an.Explorer{P: c.P, NoReturn: noReturn}
-	ex.Atom = func(v ssa.Value) (an.AVal, bool) {
-		if v == ssa.Value(errCall) {
-			return an.AVal{K: an.ANonNil}, true
-		}
-		return an.AVal{}, false
-	}
-	ex.Effect = func(in ssa.Instruction, st *an.State) string {
-		if call, ok := in.(*ssa.Call); ok {
-			for _, callee := range c.P.Callees(&call.Call) {
-				if callee == r.ctxFn || callee == r.execute || callee == r.before || callee == r.after || callee == r.cond {
-					return "phase:" + an.Short(callee)
-				}
-			}
-			if _, ok := an.IsCallTo(call, fnWgAdd); ok {
-				return "Add"
-			}
-		}
-		return ""
-	}
-	outs := ex.RunFrom(f, errCall, nil)
-	bad := ""
-	for _, o := range outs {
-		if o.End != "return" || o.Ret[len(o.Ret)-1].K != an.ANonNil {
-			bad = "a cancelled runner's Run does not return a non-nil error"
-		}
-		for _, e := range o.Effects {
-			if strings.HasPrefix(e, "phase:") {
-				bad = "a cancelled runner's Run still reaches " + e
-			}
-			if e == "Add" {
-				bad = "a refused run registers itself as in flight"
-			}
-		}
-	}
-	if bad != "" {
-		c.Bad(rule, an.Short(f)+":gate-row cancelled", errCall.Pos(), "%s", bad)
-	} else {
-		c.OK(rule, an.Short(f)+":gate-row cancelled", errCall.Pos(), "returns the context's error, starts nothing (%d paths)", len(outs))
 	}
 	// registration under the same read lock
 	var rlock *an.BlockOp
@@ -240,11 +204,9 @@ func runnerContext(c *an.Ctx, r *runnerRoles, rule string) {
 	// phases: Execute's ctx argument has provenance TaskRunner.ctx
 	cfgDepth := 2
 	_ = cfgDepth
-	for _, ph := range []struct {
-		fn   *ssa.Function
-		name string
-	}{{r.before, "before"}, {r.execute, "commands"}, {r.after, "after"}, {r.cond, "condition"}} {
-		for _, fn := range an.WithAnon(ph.fn) {
+	for _, fn0 := range r.scope {
+		for _, fn := range []*ssa.Function{fn0} {
+			fn := fn
 			an.EachInstr(fn, func(in ssa.Instruction) {
 				cc, ok := isExecCall(in)
 				if !ok {
@@ -254,30 +216,34 @@ func runnerContext(c *an.Ctx, r *runnerRoles, rule string) {
 				if !cc.IsInvoke() {
 					ctxArg = cc.Args[1]
 				}
-				provs := map[string]bool{}
-				for _, src := range an.Sources(ctxArg) {
-					if prm, ok := src.(*ssa.Parameter); ok {
-						// bound at the call sites in Run
-						idx := -1
-						for i, q := range ph.fn.Params {
-							if q == prm {
-								idx = i
-							}
-						}
-						for _, site := range p.CallSitesOf(ph.fn) {
-							if idx >= 0 && idx < len(site.Common().Args) {
-								provs[an.FieldProv(site.Common().Args[idx])] = true
-							}
-						}
-						continue
+				job := cc.Args[len(cc.Args)-1]
+				kind := jobKind(job, nil)
+				if kind == "?" {
+					kinds := map[string]bool{}
+					for _, src := range p.DeepSources(job, 2, true) {
+						kinds[jobKind(src, nil)] = true
 					}
+					var ks []string
+					for k := range kinds {
+						ks = append(ks, k)
+					}
+					sort.Strings(ks)
+					kind = strings.Join(ks, "+")
+				}
+				if an.Short(fn) == "(*pkg/runner.ExecutionContext).runServiceCommand" {
+					return // context service commands: not one of the statement's injection points
+				}
+				provs := map[string]bool{}
+				for _, src := range p.DeepSources(ctxArg, 3, true) {
 					provs[an.FieldProv(src)] = true
 				}
 				var ps []string
 				for k := range provs {
 					ps = append(ps, k)
 				}
-				key := an.Short(ph.fn) + ":Execute(ctx)"
+				sort.Strings(ps)
+				ph := struct{ fn *ssa.Function; name string }{fn, kind}
+				key := an.Short(ph.fn) + ":Execute(ctx," + kind + ")"
 				good := len(provs) == 1 && provs["TaskRunner.ctx"]
 				if ph.name == "condition" {
 					if !good {
